@@ -600,7 +600,8 @@ class SimNinja:
 
         def execute(e, override_fault=None):
             f = override_fault if override_fault is not None else fault_for.get(e.outs[0])
-            rec = {"out": e.outs[0], "rule": e.rule, "reason": dirty[e.idx], "fault": None, "fired": False}
+            rec = {"out": e.outs[0], "rule": e.rule, "reason": dirty[e.idx], "fault": None, "fired": False,
+                   "ins": list(e.ins), "rsp": mf.binding(e, "rspfile")}
             w.settle()
             if f is not None:
                 rec["fault"] = {k: f[k] for k in ("kind", "n") if k in f}
